@@ -31,6 +31,9 @@ ASSUMPTIONS = ['secure group types are chosen with an underlying field larger th
                'with t = 0 a float output to a subset is not private (no secrecy at threshold 0): floats use t >= 1']
 
 
+TIMEOUT_INCONCLUSIVE = True  # hangs are decided by quiescence in the simulator, not by the wall clock
+
+
 def budget(tier):
     return dict(shards=16, examples=50 if tier == 'quick' else 400)
 
